@@ -38,6 +38,7 @@ def run(idx: ProgramIndex, rep: Report, tier: str):
     one_source(idx, rep)
     raw_parameters_behind_their_constraint(idx, rep)
     centred_distances(idx, rep)
+    wendland_exponent(idx, rep)
 
 
 def clamp_discipline(fi: FuncInfo, setting: str, value_names: Optional[List[str]] = None) -> List[str]:
@@ -496,3 +497,83 @@ def centred_distances(idx: ProgramIndex, rep: Report):
         rep.add("C07-8", "%s:%s[common offset]" % (mi.name, name), f.where, not probs,
                 "%d returned value(s) inlined, %d of them expand the distance: both inputs enter shifted by the same row-reduction of an input" % (len(seen), computes) if not probs else "; ".join(probs), {"returns": len(seen)})
     rep.floor("C07-8", "distance helpers", n, 2)
+
+
+# ---- C07-9 ---------------------------------------------------------------------------------------------------------
+def wendland_exponent(idx: ProgramIndex, rep: Report):
+    """The compactly supported piecewise-polynomial covariance (1 - r)_+^(j+q) p_q(j, r) is positive definite on R^D only for
+    j >= floor(D/2) + q + 1, D the dimension of the inputs (Wendland; Rasmussen & Williams 4.21).  The clause: in
+    PiecewisePolynomialKernel.forward the exponent handed to the polynomial helpers is floor(D/2) + q + 1 with D read from the shape
+    of an input tensor (a parameter of forward, or a local computed from one) - not from a parameter of the kernel, whose shape says
+    nothing about the data unless ARD is on."""
+    rep.rule("C07-9", "PiecewisePolynomialKernel: the exponent j is floor(D/2) + q + 1 with D a size of the input tensors (the condition under which the compactly supported polynomial is a valid covariance in D dimensions)")
+    K = idx.find_class("PiecewisePolynomialKernel")
+    fw = K.methods.get("forward")
+    if fw is None:
+        raise AnalysisError("C07-9: PiecewisePolynomialKernel.forward not found (anchor)")
+    sn = fw.params[0]
+    tensor_params = set(fw.params[1:3])
+    assigns: Dict[str, List[ast.AST]] = {}
+    for a in ast.walk(fw.node):
+        if isinstance(a, ast.Assign) and len(a.targets) == 1 and isinstance(a.targets[0], ast.Name):
+            assigns.setdefault(a.targets[0].id, []).append(a.value)
+
+    def from_inputs(e: ast.AST, depth=0) -> bool:
+        """e is an input tensor or a local computed from input tensors by a method call / arithmetic"""
+        if isinstance(e, ast.Name):
+            if e.id in tensor_params:
+                return True
+            return depth < 3 and e.id in assigns and all(from_inputs(d, depth + 1) for d in assigns[e.id])
+        if isinstance(e, ast.Call) and isinstance(e.func, ast.Attribute):
+            return from_inputs(e.func.value, depth)
+        if isinstance(e, ast.BinOp):
+            return from_inputs(e.left, depth) or from_inputs(e.right, depth)
+        return False
+
+    def is_input_size(e: ast.AST) -> bool:
+        if isinstance(e, ast.Subscript) and isinstance(e.value, ast.Attribute) and e.value.attr == "shape":
+            return from_inputs(e.value.value)
+        if isinstance(e, ast.Call) and isinstance(e.func, ast.Attribute) and e.func.attr == "size" and e.args:
+            return from_inputs(e.func.value)
+        return False
+
+    def terms(e: ast.AST) -> List[ast.AST]:
+        if isinstance(e, ast.BinOp) and isinstance(e.op, ast.Add):
+            return terms(e.left) + terms(e.right)
+        return [e]
+
+    def half_floor_of(e: ast.AST) -> Optional[ast.AST]:
+        """floor(X / 2), int(X / 2), X // 2 -> X"""
+        if isinstance(e, ast.Call) and (chain(e.func) or "").split(".")[-1] in ("floor", "int") and len(e.args) == 1:
+            d = e.args[0]
+            if isinstance(d, ast.BinOp) and isinstance(d.op, (ast.Div, ast.FloorDiv)) and isinstance(d.right, ast.Constant) and d.right.value == 2:
+                return d.left
+        if isinstance(e, ast.BinOp) and isinstance(e.op, ast.FloorDiv) and isinstance(e.right, ast.Constant) and e.right.value == 2:
+            return e.left
+        return None
+
+    # the exponent: second argument of the polynomial helpers
+    helper_calls = [c for c in calls_in(fw.node) if (chain(c.func) or "") in ("_fmax", "_get_cov") and len(c.args) >= 2]
+    if not helper_calls:
+        raise AnalysisError("C07-9: forward no longer calls _fmax / _get_cov with the exponent (anchor)")
+    probs = []
+    for c in helper_calls:
+        j = c.args[1]
+        defs = assigns.get(j.id, []) if isinstance(j, ast.Name) else [j]
+        if not defs:
+            probs.append("the exponent `%s` of %s has no definition in forward" % (src(j), chain(c.func)))
+        for d in defs:
+            ts = terms(d)
+            halves = [half_floor_of(t) for t in ts if half_floor_of(t) is not None]
+            consts = [t.value for t in ts if isinstance(t, ast.Constant) and isinstance(t.value, (int, float))]
+            qs = [t for t in ts if (chain(t) or "") in ("%s.q" % sn, "q")]
+            if len(halves) != 1 or sum(consts) != 1 or len(qs) != 1 or len(ts) != len(consts) + 2:
+                probs.append("the exponent is `%s`, not floor(D/2) + q + 1" % src(d))
+                continue
+            D = halves[0]
+            ddefs = assigns.get(D.id, []) if isinstance(D, ast.Name) else [D]
+            bad = [x for x in ddefs if not is_input_size(x)]
+            if not ddefs or bad:
+                probs.append("D in the exponent floor(D/2) + q + 1 is `%s`: not a size of the input tensors - with the default (non-ARD) kernel that is 1 whatever the dimension of the data, and for j < floor(D/2) + q + 1 the compactly supported polynomial is not positive definite in D dimensions (indefinite Gram matrices)" % (src(bad[0]) if bad else src(D)))
+    rep.add("C07-9", "%s:PiecewisePolynomialKernel.forward[exponent j]" % K.module.name, fw.where, not probs,
+            "j = floor(D/2) + q + 1 with D a size of the inputs at all %d uses" % len(helper_calls) if not probs else "; ".join(sorted(set(probs))), {})
